@@ -323,15 +323,124 @@ def run(ctx, spin):
                   "max_terms": ((2 if ctx.quick else 3) if not spin else ("1, plus 2 with unit coefficients" if ctx.quick else 2)),
                   "wide_slice": "two variables, <=2 terms with a coefficient from %s (quick: paired with a unit coefficient), offsets {0,1,-1}, bounds omitted/exact/loose-half, lam 1" % ((-10, -9, -7, -5, -3, 3, 5, 7, 9, 10) if not spin else (-5, -3, 3, 5),),
                   **({"boolean_image_slice": "spin polynomials m*B((1-z)/2) for every boolean B over 3 variables with <= %d unit-coefficient terms, offsets {0,1,-1} (the inputs that reach the boolean special forms); bounds omitted/exact/loose-half, lam 1" % (2 if ctx.quick else 3)} if spin else {}),
+                  **({} if spin else {"huge_coefficient_slice": "P = +-((2^k + d) x - y), k in %s, d in {0,1}, relations <=,<,>=,>, log_trick: the penalty is shown to equal lam (Q + sum c_i a_i)^2 as an integer polynomial identity with contiguous slack range, then decided analytically on all four (x, y)" % (BIG_K,)}),
                   "forms": "dict everywhere; PUBO/PUSO object and variable expression where bounds omitted and lam=1", "max_ancillas": MAX_ANC,
                   "sequence_menu": [[m[0], rp.jdict(m[1]), m[2]] for m in menu],
                   "sequence_length": 2 if (ctx.quick or spin) else "2 and 3"}
     ctx.rule = "case = constraint polynomial (all relations/options inside) or one ordered constraint sequence; non-trivial = polynomial has a non-constant term"
     explore_cases(ctx, gen_cases(ctx.tier, spin), check, label="C03" if spin else "C02")
+    if not spin:
+        explore_cases(ctx, lambda: big_cases(), check_big, label="C02 huge coefficients")
+
+
+# ------------------------------------------------------------------ huge coefficients: decided through the structure of the penalty
+
+BIG_K = (49, 50, 53, 60)
+
+
+def big_cases():
+    for k in BIG_K:
+        for rel, sign in (("le", -1), ("lt", -1), ("ge", 1), ("gt", 1)):
+            for d in (0, 1):
+                yield {"part": "big", "k": k, "rel": rel, "sign": sign, "d": d}
+
+
+def _expand_square(lam, Q, c):
+    """lam * (Q(x) + sum_i c_i a_i)^2 over booleans (x^2 = x), exact integers.  Q: {frozenset: int}; c: {ancilla: int}."""
+    lin = dict(Q)
+    for a, ci in c.items():
+        lin[frozenset([a])] = lin.get(frozenset([a]), 0) + ci
+    out = {}
+    items = list(lin.items())
+    for k1, v1 in items:
+        for k2, v2 in items:
+            k = k1 | k2
+            out[k] = out.get(k, 0) + lam * v1 * v2
+    return {k: v for k, v in out.items() if v}
+
+
+def check_big(case, st):
+    """P = sign * (2^k + d) * x - sign * y with log_trick=True needs ~k slack bits: far too many to enumerate.  The added terms are
+    shown to be EXACTLY lam * (Q(x, y) + sum_i c_i a_i)^2 (integer polynomial identity), the c_i to have contiguous subset sums
+    [0, C], and then min over the ancillas is 0 iff 0 <= -Q(x, y) <= C: checked against the relation on all four (x, y)."""
+    import math
+    qv = paths.import_qubovert()
+    k, rel, sign, d = case["k"], case["rel"], case["sign"], case["d"]
+    Mag = 2 ** k + d
+    P = {("x",): sign * Mag, ("y",): -sign}
+    lam = 3
+    H = qv.PCBO()
+    st.transitions += 1
+    st.traces += 1
+    st.nontrivial += 1
+    r, _w = call(getattr(H, "add_constraint_%s_zero" % rel), dict(P), lam=lam, log_trick=True)
+
+    def v(kind, msg):
+        st.violation("big|%s|%s" % (rel, kind), case, "C02 PCBO().add_constraint_%s_zero(%s, lam=3, log_trick=True): %s" % (rel, P, msg))
+    if isinstance(r, Raised):
+        v("raises-" + r.kind, "raised %r" % r.exc)
+        return
+    anc = sorted({l for key in H for l in key if is_anc(l)}, key=lambda a: int(str(a)[3:]))
+    if not all(isinstance(c_, int) and not isinstance(c_, bool) for c_ in H.values()) or len(anc) < 3:
+        st.outcomes["big: coefficients not exact integers / fewer than 3 ancillas -> not decided by this part"] += 1
+        return
+    F = {frozenset(key): c_ for key, c_ in H.items()}
+    pair = lambda a, b_: F.get(frozenset([a, b_]), 0)      # noqa: E731   = 2 lam c_a c_b
+    p01, p02, p12 = pair(anc[0], anc[1]), pair(anc[0], anc[2]), pair(anc[1], anc[2])
+    if not (p01 and p02 and p12) or (p01 * p02) % (p12 * 2 * lam):
+        st.outcomes["big: penalty is not of the form lam (Q + sum c a)^2 -> not decided by this part"] += 1
+        return
+    c0sq = (p01 * p02) // (p12 * 2 * lam)
+    c0 = math.isqrt(c0sq)
+    if c0 * c0 != c0sq or c0 == 0:
+        st.outcomes["big: penalty is not of the form lam (Q + sum c a)^2 -> not decided by this part"] += 1
+        return
+    c = {anc[0]: c0}
+    for a in anc[1:]:
+        num = pair(anc[0], a)
+        if num % (2 * lam * c0):
+            st.outcomes["big: penalty is not of the form lam (Q + sum c a)^2 -> not decided by this part"] += 1
+            return
+        c[a] = num // (2 * lam * c0)
+    # Q from the cross terms with the first ancilla: coef(a0) = lam (c0^2 + 2 c0 q0), coef({a0, x}) = 2 lam c0 q_x
+    Q = {}
+    lin0 = F.get(frozenset([anc[0]]), 0) - lam * c0 * c0
+    for key, name in ((frozenset(), None), (frozenset(["x"]), "x"), (frozenset(["y"]), "y")):
+        num = lin0 if name is None else F.get(frozenset([anc[0], name]), 0)
+        if num % (2 * lam * c0):
+            st.outcomes["big: penalty is not of the form lam (Q + sum c a)^2 -> not decided by this part"] += 1
+            return
+        if num:
+            Q[key] = num // (2 * lam * c0)
+    if _expand_square(lam, Q, c) != {k_: v_ for k_, v_ in F.items() if v_}:
+        st.outcomes["big: penalty is not of the form lam (Q + sum c a)^2 -> not decided by this part"] += 1
+        return
+    cs = sorted(c.values())
+    if cs[0] < 1 or any(cs[i] > 1 + sum(cs[:i]) for i in range(len(cs))):
+        st.outcomes["big: slack coefficients without contiguous subset sums -> not decided by this part"] += 1
+        return
+    C = sum(cs)
+    for x in (0, 1):
+        for y in (0, 1):
+            p = sign * Mag * x - sign * y
+            q = Q.get(frozenset(), 0) + Q.get(frozenset(["x"]), 0) * x + Q.get(frozenset(["y"]), 0) * y
+            want = bool(holds(rel, p))
+            reach = 0 <= -q <= C
+            if want and not reach:
+                v("not-zero-on-satisfying", "x=%d, y=%d satisfies the relation (P = %d) but the penalty lam (Q + S)^2 with Q = %d and slack S in [0, %d] (%d bits) "
+                  "cannot vanish: its minimum over the ancillas is %d" % (x, y, p, q, C, len(cs), lam * min(abs(q), abs(q + C)) ** 2))
+                return
+            if not want and reach:
+                v("zero-on-violating", "x=%d, y=%d violates the relation (P = %d) but the slack can cancel Q = %d" % (x, y, p, q))
+                return
+    st.outcomes["big: decided (k=%d)" % k] += 1
 
 
 def replay(case):
     st = Stats()
+    if case["part"] == "big":
+        check_big({k_: case[k_] for k_ in ("part", "k", "rel", "sign", "d")}, st)
+        return [(s, m) for s, c, m in st.viol]
     if case["part"] == "single":
         check({"part": "single", "poly": case["poly"], "spin": case.get("spin", False), "wide": case.get("wide", False)}, st)
     else:
